@@ -148,7 +148,7 @@ def run(ctx):
         lg = RS.registry()(a)
         if not lg.Meta.modal or a in seen_l: continue
         seen_l.add(a); funcs = {}
-        for r in c02.access_saturation(lg, funcs):
+        for r in list(c02.access_saturation(lg, funcs)) + list(c02.serial_saturation(lg, funcs)):
             r.name = r.name.replace('C02.saturation.', 'C11.extension-saturates.')
             ctx.add_result(r)
         ctx.functions.update(funcs)
